@@ -254,7 +254,7 @@ class COO(SparseArray, NDArrayOperatorsMixin):  # lgtm [py/missing-equals]
             self.coords = np.zeros((len(shape) if isinstance(shape, Iterable) else 1, 0), dtype=np.intp)
         super().__init__(shape, fill_value=fill_value)
         if idx_dtype:
-            if not can_store(idx_dtype, max(shape)):
+            if not can_store(idx_dtype, max(shape, default=0)):
                 raise ValueError(f"cannot cast array with shape {shape} to dtype {idx_dtype}.")
             self.coords = self.coords.astype(idx_dtype)
 
